@@ -30,17 +30,26 @@ BusNames == << <<98>>, <<98, 50>>, <<99, 97, 110>>, <<109, 97, 105, 110>> >>    
 BusStr(cs) == CASE cs = <<98>> -> "b" [] cs = <<98, 50>> -> "b2" [] cs = <<99, 97, 110>> -> "can" [] OTHER -> "main"
 (* bind every 4th root struct whose largest boundary encoding fits 8 bytes *)
 Bound(i) == i % 4 = 1
+(* CAN bindings WITHOUT a bus, declared before all the others and with identifiers the bus-declaring bindings use too: they are
+   not addressed by any frame and must not disturb the look-up of the bindings that follow *)
+Busless(i) == i % 4 = 3 /\ i <= 24
+BuslessImpls == SelectSeq([i \in 1..NRoot |->
+                   [name |-> RName(i), protocol |-> "can", type |-> RName(i),
+                    fields |-> << [name |-> "id", value |-> [i |-> SidOf(i - 2)]] >>, signals |-> <<>>]],
+                   LAMBDA im : Busless(CHOOSE i \in 1..NRoot : RName(i) = im.name))
 MegaSchema ==
     [structs |-> <<Inner>> \o [i \in 1..NRoot |-> [name |-> RName(i), fields |-> RootFields(i)]],
      enums |-> Enums,
-     impls |-> SelectSeq([i \in 1..NRoot |->
+     impls |-> BuslessImpls \o SelectSeq([i \in 1..NRoot |->
                   [name |-> RName(i), protocol |-> "can", type |-> RName(i),
                    fields |-> << [name |-> "id", value |-> [i |-> SidOf(i)]],
                                  [name |-> "bus", value |-> [s |-> BusStr(BusNames[((i \div 4) % 4) + 1])]] >>,
                    signals |-> <<>>]], LAMBDA im : Bound(CHOOSE i \in 1..NRoot : RName(i) = im.name))]
-TableOf(sch) == [j \in 1..Len(sch.impls) |->
-                   [name |-> sch.impls[j].name, sid |-> IdOf(sch.impls[j]),
-                    bus |-> BusNames[CHOOSE n \in 1..4 : BusStr(BusNames[n]) = LitStr(LookupField(sch.impls[j].fields, "bus", <<>>))]]]
+HasBus(im) == \E f \in Range(im.fields) : f.name = "bus"
+TableOf(sch) == LET bound == SelectSeq(sch.impls, HasBus) IN
+                [j \in 1..Len(bound) |->
+                   [name |-> bound[j].name, sid |-> IdOf(bound[j]),
+                    bus |-> BusNames[CHOOSE n \in 1..4 : BusStr(BusNames[n]) = LitStr(LookupField(bound[j].fields, "bus", <<>>))]]]
 
 Init == stage = 0 /\ S = MegaSchema /\ table = TableOf(MegaSchema) /\ k = 0 /\ v = <<>>
 Next == \/ stage = 0 /\ stage' = 1 /\ k' \in 1..(Len(S.structs) - 1) /\ v' = <<>> /\ UNCHANGED <<S, table>>
